@@ -84,6 +84,32 @@ def expected_sites(text, ignore, chains=None):
     return out, bridged
 
 
+def altloc_variant(text, tag):
+    """the single-conformation structure that alternate location `tag` stands for: untagged records, the records carrying `tag`, and - for atoms
+    (chain, number, insertion code, residue name, atom name) that have no record with `tag` - their first tagged record, unless the residue has a
+    version of its own under `tag` with another residue name (alternate-location point mutant: those residues are not completed from each other)"""
+    recs = [l for l in text.splitlines()]
+    tagged_names = {}
+    for l in recs:
+        if structures.is_atom(l) and l[16] == tag:
+            tagged_names.setdefault((l[21], l[22:27]), set()).add(l[17:20])
+    seen, out = set(), []
+    for l in recs:
+        if not structures.is_atom(l):
+            out.append(l)
+            continue
+        key = (l[21], l[22:27], l[17:20], l[12:16])
+        own = tagged_names.get((l[21], l[22:27]))
+        if l[16] == tag or l[16] == " ":
+            ok = True
+        else:
+            ok = not (own and l[17:20] not in own) and not any(structures.is_atom(m) and m[16] == tag and (m[21], m[22:27], m[17:20], m[12:16]) == key for m in recs)
+        if ok and key not in seen:
+            seen.add(key)
+            out.append(l[:16] + " " + l[17:])
+    return "\n".join(out) + "\n"
+
+
 def observed_sites(conf):
     c = collections.Counter()
     flags = {}
@@ -268,11 +294,18 @@ def check_case(chk, name, text, opts, found, ignore, par):
         found.append(("crash", f"{name}: {type(ex).__name__}: {ex}", {"case": name, "options": opts, "pdb_text": text if len(text) < 200000 else None}))
         return None
     exp, bridged = expected_sites(text, ignore, chains)
+    alt_tags = sorted({l[16] for l in structures.atom_lines(text) if l[16] != " "})
+    per_tag = {}
+    if alt_tags and not any(l[:6] == "MODEL " for l in text.splitlines()):
+        for t_ in alt_tags:
+            per_tag["1" + t_] = expected_sites(altloc_variant(text, t_), ignore, chains)
     rep = lambda extra: dict(extra, case=name, options=opts, pdb_text=text if len(text) < 200000 else None)
     for cname in mol.conformation_names:
         m = int(cname[:-1])
         conf = mol.conformations[cname]
         obs, groups = observed_sites(conf)
+        if cname in per_tag:
+            exp, bridged = per_tag[cname]
         want = exp.get(m, collections.Counter())
         chk.count(1, key=("census", name, cname, sum(want.values())))
         if obs != want:
@@ -323,6 +356,17 @@ def check_case(chk, name, text, opts, found, ignore, par):
                     found.append(("hetero-group-missing-from-report", f"{name}: {n_} titratable hetero group(s) labelled {lab.strip()!r} in the conformation, {avr_labels.get(lab, 0)} in the "
                                   f"averaged results, {srows.get(lab, 0)} summary row(s)", rep({"label": lab})))
                     break
+    # ---- several alternate locations: every site of any conformation has exactly one summary row (the summary lists the average)
+    if per_tag and len(mol.conformation_names) > 1:
+        union = collections.Counter()
+        for cname, (e_, _b) in per_tag.items():
+            for k in e_.get(1, collections.Counter()):
+                union[(label_of(*k[:3]), k[3])] = 1
+        rows = collections.Counter((lab, mp) for lab, _pk, mp in summary_rows(structures.pka_text(mol)) if lab[:3].strip() in SITE_TYPES and re.match(r"^.{3} *-?\d+ .$", lab))
+        for lab, mp in list((union - rows).elements())[:3]:
+            found.append(("summary-missing:alternate-location", f"{name}: {lab.strip()} (model pKa {mp}) exists in some conformation but has no summary row", rep({"group": lab})))
+        for lab, mp in list((rows - union).elements())[:3]:
+            found.append(("summary-unexpected:alternate-location", f"{name}: summary row {lab.strip()} (model pKa {mp}) appears {rows[(lab, mp)]}x, expected {union.get((lab, mp), 0)}x", rep({"group": lab})))
     # ---- summary (first conformation's model for single-model files; AVR lists the average)
     if len(mol.conformation_names) == 1:
         cname = mol.conformation_names[0]
@@ -380,6 +424,22 @@ def run(chk: common.Check):
     sub = structures.read("3SGB-subset.pdb")
     every = ",".join(sorted({f"{l[21]}:{l[22:26].strip()}{l[26].strip()}" for l in structures.atom_lines(sub)}))
     cases.append(("3SGB-subset -i <every residue>", sub, ["-i", every]))
+    # alternate locations: on the backbone N of both chain starts and on a lysine side chain; an alternate-location point mutant whose
+    # ionizable version is NOT the first alternate
+    hl = [l for l in structures.read("1HPX.pdb").splitlines() if l[:6] == "ATOM  " and int(l[22:26]) <= 25]
+    frag2 = "\n".join(l for c in ("A", "B") for l in [x for x in hl if x[21] == c] + ["TER"]) + "\nEND\n"
+    alt = []
+    for l in frag2.splitlines():
+        if structures.is_atom(l) and ((int(l[22:26]) == 1 and l[12:16].strip() == "N") or (l[17:20] == "LYS" and l[12:16].strip() in ("CE", "NZ") and int(l[22:26]) == 14)):
+            x, y, z = (float(v) for v in structures.get_xyz(l))
+            alt.append(l[:16] + "A" + l[17:])
+            alt.append(structures.set_xyz(l[:16] + "B" + l[17:], x + 0.3, y - 0.2, z + 0.25))
+        else:
+            alt.append(l)
+    cases.append(("1HPX[1:25] x2 chains, alternate locations on both chain-start N and on LYS 14", "\n".join(alt) + "\n", []))
+    pm, pmd = structures.altloc_point_mutant(frag2, lambda r: r["name"] == "GLU", first="amide")
+    if pm:
+        cases.append((f"1HPX[1:25] x2 chains, {pmd}", pm, []))
     cases.append(("3SGB-subset two models", structures.as_models([structures.read("3SGB-subset.pdb")] * 2), []))
     # two copies of one ligand in ONE chain (same residue name and atom names, different residue numbers)
     t4 = structures.read("4DFR.pdb")
